@@ -224,116 +224,268 @@ def gen_poolc(rng, glue):
 
 
 def gen_glue(rng):
-    """A real node's admission glue driven by the adversary: connects (valid member / non-member /
-    duplicate identity / over quota / replayed / forged / malformed) and disconnects, interleaved."""
+    """A real node (both directions of one network) driven by the adversary.  Inbound: peers connect
+    (configured / non-configured / duplicate identity / over quota / replayed / forged / malformed).
+    Outbound: the node's own run_outbound_stream dials the harness expecting a key and the other end
+    (a) presents it, (b) presents another valid key, (c) replays a recorded handshake (the node's own
+    message reflected, a message of another session), (d) drops mid-handshake or before the preface
+    ends, (e) is dialled twice concurrently, (f) is connected inbound at the same time; the validator
+    reconnect loop (maintain_connection) is run for several rounds.  Disconnects interleaved."""
     net = rng.choice(["g", "c"])
     key = rng.below(P)
     allowed = [k for k in range(P) if rng.chance(2, 5)]
     if net == "c" and not allowed:
         allowed = [rng.below(P)]
     limit = rng.choice([0, 1, 1, 2, 3]) if net == "g" else 0
+    out_allowed = [k for k in range(P) if rng.chance(2, 5)] if net == "g" else list(allowed)
     events, kinds = [], []
-    conns = []          # (key or None) per connection, generator's guess of what is live
-    live = {}
+    conns = []               # per connection: key it was (validly) answered/offered as, else None
+    live_in, live_out = {}, {}
+    nconn = [0]
+
+    def good_spec(c, k):
+        return {"base": None, "sid": c, "key": k, "sig": {"k": k, "sid": c}, "gen": 0, "static": rng.chance(1, 2)}
+
+    def bad_spec(c, k, outbound):
+        """returns (kind, spec)"""
+        y = rng.below(8)
+        recorded = [j for j in range(c) if conns[j] is not None]
+        if y == 0 and recorded:
+            return "replay_recorded", {"base": rng.choice(recorded)}
+        if y == 1 and outbound:
+            return "reflect_own_message", {"base": c}
+        if y == 2 and c > 0:
+            sp = good_spec(c, k); sp["sig"] = {"k": k, "sid": rng.below(c)}
+            return "signature_for_other_connection", sp
+        if y == 3:
+            sp = good_spec(c, k); sp["gen"] = rng.range(1, GENS - 1)
+            return "other_chain", sp
+        if y == 4:
+            sp = good_spec(c, k); sp["sig"] = "bad" if rng.chance(1, 2) else {"k": other(rng, k, P), "sid": c}
+            return "bad_signature", sp
+        if y == 5:
+            return "drop_or_garbage", {"mal": rng.choice(["drop", "drop", "junk", "othernet", "oversize"])}
+        if y == 6:
+            sp = good_spec(c, k); sp["sid"] = rng.choice([1000 + rng.below(4), 2000 + c, 3000, 4000 + c])
+            return "other_session_id", sp
+        if recorded:
+            return "replay_id_rewritten", {"base": rng.choice(recorded), "sid": c}
+        return "drop_or_garbage", {"mal": "drop"}
+
+    def in_ok(k):
+        return k not in live_in.values() and (k in allowed or (net == "g" and len([x for x in live_in.values() if x not in allowed]) < limit))
+
+    def pick_peer():
+        z = rng.below(10)
+        if z < 6 and out_allowed:
+            return rng.choice(out_allowed)
+        if z < 7:
+            return key
+        if z < 8 and live_in:
+            return rng.choice(sorted(live_in.values()))          # (f) also connected inbound
+        return rng.below(P)
+
+    did_maintain = False
     for _ in range(rng.range(3, 14)):
         c = len(conns)
         z = rng.below(100)
-        if z < 22 and live:
-            d = rng.choice(sorted(live))
+        livec = sorted(set(live_in) | set(live_out))
+        if z < 16 and livec:
+            d = rng.choice(livec)
             events.append(["disc", d]); kinds.append("disconnect")
-            live.pop(d, None)
-            continue
-        if z < 27 and conns:
-            events.append(["disc", rng.below(len(conns))]); kinds.append("disconnect_any")
-            live.pop(events[-1][1], None)
-            continue
-        k = rng.below(P)
-        kind = "connect"
-        if z < 45 and allowed:
-            k = rng.choice(allowed); kind = "connect_configured"
-        elif z < 60:
-            non = [x for x in range(P) if x not in allowed]
-            if non:
-                k = rng.choice(non); kind = "connect_non_configured"
-        elif z < 72 and live:
-            k = rng.choice([live[x] for x in sorted(live)]); kind = "connect_duplicate_identity"
-        spec = {"base": None, "sid": c, "key": k, "sig": {"k": k, "sid": c}, "gen": 0, "static": rng.chance(1, 2)}
-        good = True
-        if z >= 72:
-            good = False
-            y = rng.below(7)
-            accepted = [j for j in range(c) if conns[j] is not None]
-            if y == 0 and accepted:
-                spec = {"base": rng.choice(accepted)}; kind = "replay_node_answer"
-            elif y == 1 and c > 0:
-                spec["sig"] = {"k": k, "sid": rng.below(c)}; kind = "signature_for_other_connection"
-            elif y == 2:
-                spec["gen"] = rng.range(1, GENS - 1); kind = "other_chain"
-            elif y == 3:
-                spec["sig"] = "bad"; kind = "bad_signature"
-            elif y == 4:
-                spec["sig"] = {"k": other(rng, k, P), "sid": c}; kind = "signed_by_other_key"
-            elif y == 5:
-                spec = {"mal": rng.choice(["drop", "junk", "othernet", "oversize"])}; kind = "malformed"
+            live_in.pop(d, None); live_out.pop(d, None)
+        elif z < 20 and conns:
+            d = rng.below(len(conns))
+            events.append(["disc", d]); kinds.append("disconnect_any")
+            live_in.pop(d, None); live_out.pop(d, None)
+        elif z < 48:
+            # inbound
+            y = rng.below(10)
+            k = rng.below(P)
+            kind = "in_connect"
+            if y < 4 and allowed:
+                k = rng.choice(allowed); kind = "in_configured"
+            elif y < 6:
+                non = [x for x in range(P) if x not in allowed]
+                if non:
+                    k = rng.choice(non); kind = "in_non_configured"
+            elif y < 8 and live_in:
+                k = rng.choice(sorted(live_in.values())); kind = "in_duplicate_identity"
+            elif y < 9 and live_out:
+                k = rng.choice(sorted(live_out.values())); kind = "in_while_connected_outbound"
+            if rng.chance(3, 4):
+                spec, good = good_spec(c, k), True
             else:
-                spec["sid"] = rng.choice([1000 + rng.below(4), 2000 + c, 3000, 4000 + c]); kind = "other_session_id"
-        events.append(["conn", spec]); kinds.append(kind)
-        ok = good and k not in live.values() and (k in allowed or (net == "g" and len([x for x in live.values() if x not in allowed]) < limit))
-        conns.append(k if good else None)
-        if ok:
-            live[c] = k
-    return {"t": "glue", "net": net, "key": key, "allowed": allowed, "limit": str(limit), "events": events, "kinds": kinds}
+                (bk, spec), good = bad_spec(c, k, False), False
+                kind = "in_" + bk
+            events.append(["conn", spec]); kinds.append(kind)
+            if good and in_ok(k):
+                live_in[c] = k
+            conns.append(k if good else None)
+        elif z < 54:
+            events.append(["dialdead", pick_peer()]); kinds.append("out_dial_nobody_answers")
+            conns.append(None)
+        elif z < 62:
+            # (e) two concurrent dials of one peer
+            p = pick_peer()
+            sa = good_spec(c, p) if rng.chance(3, 4) else bad_spec(c, p, True)[1]
+            if sa.get("base") == c + 1:
+                sa = good_spec(c, p)
+            conns.append(p)
+            sb = good_spec(c + 1, p) if rng.chance(3, 4) else bad_spec(c + 1, p, True)[1]
+            conns.append(p)
+            events.append(["dial2", p, sa, sb]); kinds.append("out_dial_twice_concurrently")
+            for (cc, sp) in ((c, sa), (c + 1, sb)):
+                if sp.get("key") == p and sp.get("sig") == {"k": p, "sid": cc} and sp.get("gen") == 0 and sp.get("sid") == cc \
+                        and p in out_allowed and p not in live_out.values():
+                    live_out[cc] = p
+        elif z < 70 and net == "c" and not did_maintain:
+            # the reconnect loop of the validator network for one peer that has no outbound connection
+            cand = [x for x in out_allowed if x != key and x not in live_out.values()]
+            if not cand:
+                continue
+            p = rng.choice(cand)
+            specs = []
+            for r in range(rng.range(1, 4)):
+                cc = len(conns)
+                specs.append(good_spec(cc, p) if rng.chance(1, 2) else
+                             (good_spec(cc, other(rng, p, P)) if rng.chance(1, 3) else bad_spec(cc, p, True)[1]))
+                conns.append(p)
+            events.append(["maintain", p, specs]); kinds.append("out_reconnect_loop")
+            did_maintain = True
+        else:
+            # outbound dial
+            p = pick_peer()
+            y = rng.below(10)
+            if y < 5:
+                spec, kind = good_spec(c, p), "out_expected_key"
+            elif y < 7:
+                k2 = other(rng, p, P)
+                spec, kind = good_spec(c, k2), "out_different_valid_key"
+            else:
+                bk, spec = bad_spec(c, p, True)
+                kind = "out_" + bk
+            if p in live_out.values():
+                kind += "+already_connected"
+            if p in live_in.values():
+                kind += "+connected_inbound"
+            if p not in out_allowed:
+                kind += "+non_configured"
+            events.append(["dial", p, spec]); kinds.append(kind)
+            if kind.startswith("out_expected_key") and p in out_allowed and p not in live_out.values():
+                live_out[c] = p
+            conns.append(p)
+    return {"t": "glue", "net": net, "key": key, "allowed": allowed, "limit": str(limit), "out_allowed": out_allowed,
+            "events": events, "kinds": kinds}
 
 
 def coq_gcase(c):
     net = c["net"]
-    cfg = coq_cfg(net, {"role": "in", "key": c["key"], "gen": 0, "statics": c["allowed"] if net == "g" else []})
-    evs = coq_list([f"GEConn {coq_spec(e[1])}" if e[0] == "conn" else f"GEDisc {e[1]}%nat" for e in c["events"]])
-    return f"({P}%nat, {coq_list([str(k) for k in c['allowed']])}, {c['limit']}, {cfg}, {evs})"
+    nc = ("{| nc_net := %s; nc_key := %d; nc_gen := 0; nc_in_allowed := %s; nc_in_limit := %s; nc_out_allowed := %s |}"
+          % ("Gossip" if net == "g" else "Validator", c["key"], coq_list([str(k) for k in c["allowed"]]), c["limit"],
+             coq_list([str(k) for k in c["out_allowed"]])))
+    evs = []
+    for e in c["events"]:
+        if e[0] == "conn":
+            evs.append(f"NConn {coq_spec(e[1])}")
+        elif e[0] == "dial":
+            evs.append(f"NDial {e[1]} {coq_spec(e[2])}")
+        elif e[0] == "dial2":
+            evs += [f"NDial {e[1]} {coq_spec(e[2])}", f"NDial {e[1]} {coq_spec(e[3])}"]
+        elif e[0] == "dialdead":
+            evs.append(f"NDialDead {e[1]}")
+        elif e[0] == "maintain":
+            n0 = model_conn_index(c, e)
+            for r, sp in enumerate(e[2]):
+                evs += [f"NDial {e[1]} {coq_spec(sp)}", f"NDisc {n0 + r}%nat"]
+        else:
+            evs.append(f"NDisc {e[1]}%nat")
+    return f"({P}%nat, {nc}, {coq_list(evs)})"
+
+
+def model_conn_index(c, ev):
+    """index of the first connection opened by event `ev` of case c"""
+    n = 0
+    for e in c["events"]:
+        if e is ev:
+            return n
+        n += {"conn": 1, "dial": 1, "dialdead": 1, "dial2": 2, "disc": 0}.get(e[0], 0)
+        if e[0] == "maintain":
+            n += len(e[2])
+    raise ValueError("event not in case")
+
+
+def _em(e):
+    em = e.get("em")
+    return [] if em is None else [[em[0], em[1], 1 if em[2] else 0, em[3], 1 if em[4] else 0]]
 
 
 def glue_obs(c, o):
+    net = c["net"]
     out = []
     for e in o["events"]:
-        pool = e["pools"][c["net"]]
+        pin, pout = e["pools"][net], e["pools"]["go" if net == "g" else "co"]
         if e["ev"] == "conn":
-            out.append([1 if e["responded"] else 0, 1 if e["live"] else 0, pool])
+            out.append([1 if e["responded"] else 0, 1 if e["live"] else 0, pin, pout])
+        elif e["ev"] == "dial":
+            out.append([_em(e), 1 if e["live"] else 0, pin, pout])
+        elif e["ev"] == "dialdead":
+            out.append([[], 0, pin, pout])
         else:
-            out.append([0, 0, pool])
+            out.append([0, 0, pin, pout])
     return out
 
 
 def pred_glue(c, o):
-    """The property on the executed glue alone: the pool is exactly the identities of the live
-    connections, each at most once; only authenticated peers get in; quota / committee respected;
-    the other pools are untouched."""
+    """The property on the executed glue alone.  Per direction the pool is exactly the identities of
+    the live connections, each at most once; a connection is registered only after a handshake signed
+    for its own session and chain — outbound additionally only under the key that was dialled and only
+    for configured peers; quota / committee respected; the node signs only its own session ids; the
+    other network's pools are untouched."""
     bad = []
     net, allowed, limit = c["net"], set(c["allowed"]), int(c["limit"])
-    live = {}
+    out_allowed = set(c["out_allowed"])
+    live_in, live_out = {}, {}
     for t, e in enumerate(o["events"]):
-        pool = e["pools"][net]
-        if e["ev"] == "conn":
-            if e["live"]:
-                d = e["delivered"]
-                if d is None or d[0] != e["c"] or not d[2] or d[3] != 0:
-                    bad.append({"failed": f"connection {e['c']} entered the pool without a handshake signed for its own session and chain: {d}", "event": t})
-                else:
-                    live[e["c"]] = d[1]
-        else:
-            live.pop(e["c"], None)
-        ids = sorted(live.values())
-        if len(set(ids)) != len(ids):
-            bad.append({"failed": f"identity holds two live inbound connections at once: {ids}", "event": t})
-        elif ids != pool:
-            bad.append({"failed": f"pool {pool} differs from the identities of the live connections {ids}", "event": t})
-        extra = [k for k in pool if k not in allowed]
+        pin, pout = e["pools"][net], e["pools"]["go" if net == "g" else "co"]
+        if e["ev"] in ("conn", "dial") and e["live"]:
+            d = e.get("delivered")
+            if d is None or d[0] != e["c"] or not d[2] or d[3] != 0:
+                bad.append({"failed": f"connection {e['c']} was registered without a handshake signed for its own session and chain: {d}", "event": t})
+            elif e["ev"] == "conn":
+                live_in[e["c"]] = d[1]
+            elif d[1] != e["peer"]:
+                bad.append({"failed": f"outbound connection to {e['peer']} registered although the other end authenticated as {d[1]}", "event": t})
+            else:
+                live_out[e["c"]] = d[1]
+        if e["ev"] == "dial":
+            em = e.get("em")
+            if e.get("no_dial"):
+                bad.append({"failed": f"the reconnect loop did not dial the newly published address of {e['peer']}", "event": t})
+            elif em is not None and (em[0] != e["c"] or em[1] != c["key"] or not em[2] or em[3] != 0):
+                bad.append({"failed": f"the node's outbound handshake is not its own signature over its own session id and chain: {em}", "event": t})
+            if e.get("endpoint_ok") is False:
+                bad.append({"failed": "the node announced the wrong network in the preface", "event": t})
+        if e["ev"] == "disc":
+            live_in.pop(e["c"], None)
+            live_out.pop(e["c"], None)
+        for (name, live, pool) in (("inbound", live_in, pin), ("outbound", live_out, pout)):
+            ids = sorted(live.values())
+            if len(set(ids)) != len(ids):
+                bad.append({"failed": f"an identity holds two live {name} connections at once: {ids}", "event": t})
+            elif ids != pool:
+                bad.append({"failed": f"{name} pool {pool} differs from the identities of the live {name} connections {ids}", "event": t})
+        extra = [k for k in pin if k not in allowed]
         if net == "c" and extra:
             bad.append({"failed": f"validator inbound pool holds non-member {extra[0]} (committee {sorted(allowed)})", "event": t})
         if net == "g" and len(extra) > limit:
-            bad.append({"failed": f"{len(extra)} non-configured gossip peers connected, quota {limit}", "event": t})
-        other = e["pools"]["c" if net == "g" else "g"]
-        if other or e["pools"]["go"] or e["pools"]["co"]:
-            bad.append({"failed": f"a connection was attributed to the wrong pool: {e['pools']}", "event": t})
+            bad.append({"failed": f"{len(extra)} non-configured gossip peers connected inbound, quota {limit}", "event": t})
+        oextra = [k for k in pout if k not in out_allowed]
+        if oextra:
+            bad.append({"failed": f"outbound pool holds {oextra[0]}, which is not a configured peer {sorted(out_allowed)}", "event": t})
+        others = [e["pools"][x] for x in (("c", "co") if net == "g" else ("g", "go"))]
+        if others[0] or others[1]:
+            bad.append({"failed": f"a connection was attributed to a pool of the other network: {e['pools']}", "event": t})
     return bad
 
 
@@ -654,7 +806,7 @@ def run(rep):
     pool_cases = [gen_pool(g3, glue) for _ in range(n_pool)]
     poolc_cases = [gen_poolc(g4, glue) for _ in range(n_poolc)]
     g5 = rng.fork()
-    glue_cases = [gen_glue(g5) for _ in range(150 if tier == "quick" else 2500)]
+    glue_cases = [gen_glue(g5) for _ in range(300 if tier == "quick" else 4000)]
 
     strip = lambda c: {k: v for k, v in c.items() if k != "kinds"}
     hs_outs = common.run_impl(BIN, [strip(c) for c in hs_cases], "dev")
@@ -662,9 +814,8 @@ def run(rep):
     poolc_outs = common.run_impl(BIN, [strip(c) for c in poolc_cases], "dev", shards=4)
     glue_outs = common.run_impl(BIN, [strip(c) for c in glue_cases], "dev", timeout=600)
     # a connection task that did not end in time (watchdog) is retried alone before it counts
-    for i, o in enumerate(glue_outs):
-        if o.get("stuck"):
-            glue_outs[i] = common.run_impl(BIN, [strip(glue_cases[i])], "dev", timeout=120)[0]
+    for i in [i for i, o in enumerate(glue_outs) if o.get("stuck")][:4]:
+        glue_outs[i] = common.run_impl(BIN, [strip(glue_cases[i])], "dev", timeout=120)[0]
     for name, cs, os_ in (("handshake", hs_cases, hs_outs), ("pool", pool_cases, pool_outs), ("poolc", poolc_cases, poolc_outs),
                           ("glue", glue_cases, glue_outs)):
         for i, o in enumerate(os_):
@@ -714,7 +865,8 @@ def run(rep):
         glue_events += len(o["events"])
         before = ()
         for e, ev in zip(o["events"], c["events"]):
-            dist_glue.add((c["net"], tuple(c["allowed"]), c["limit"], before, e["ev"], json.dumps(e.get("delivered")),
+            dist_glue.add((c["net"], tuple(c["allowed"]), c["limit"], tuple(c["out_allowed"]), before, e["ev"], e.get("peer"),
+                           tuple(e["pools"]["go" if c["net"] == "g" else "co"]), json.dumps(e.get("delivered")),
                            e.get("live"), ev[1] if ev[0] == "disc" else None))
             before = tuple(e["pools"][c["net"]])
     conc_ops = 0
@@ -739,7 +891,7 @@ def run(rep):
     mm_pool, samp_pool = common.run_model_cases("C12pool", "From EC Require Import Model.Handshake Model.Pool.",
                                                 "Model.Pool.run_case", coq_pool, shard_size=60, sample_ids=[0])
     mm_glue, samp_glue = common.run_model_cases("C12glue", "From EC Require Import Model.Handshake Model.Pool.",
-                                                "Model.Pool.run_glue_case", coq_glue, shard_size=20, sample_ids=[0, 1])
+                                                "Model.Pool.run_node_case", coq_glue, shard_size=20, sample_ids=[0, 1])
     # The code under test has real-time limits (5 s handshake timeout): on a starved machine a session
     # can time out before the adversary speaks. A disagreeing case is therefore re-run alone; only a
     # disagreement that persists counts (a changed decision is deterministic and persists).
@@ -763,17 +915,12 @@ def run(rep):
             for b in pred_glue(c, o):
                 pred_fail.append({"case": strip(c), "impl": o, **b})
     if mm_glue:
-        broken.append(f"correspondence executed admission glue (Network::new + run_inbound_stream) vs Model.Pool.run_glue_case: {len(mm_glue)} disagreeing cases")
+        broken.append(f"correspondence executed admission glue (Network::new + run_inbound_stream / run_outbound_stream / maintain_connection) vs Model.Pool.run_node_case: {len(mm_glue)} disagreeing cases")
     if mm_hs:
         broken.append(f"correspondence handshake functions vs Model.Handshake.run_case: {len(mm_hs)} disagreeing cases")
     if mm_pool:
         broken.append(f"correspondence PoolWatch vs Model.Pool.run_case: {len(mm_pool)} disagreeing cases")
-    if glue["problems"]:
-        broken.append("source tripwire: connection glue text differs from the model: " + "; ".join(glue["problems"]))
-        hit = members_only_search(rng.fork(), glue, 300)
-        if hit:
-            pred_fail.append(hit)
-
+    # (the source-text check of the glue is informational only now: what it looked at is executed)
     if pred_fail:
         rep.violation("C12 violated on the implementation: " + pred_fail[0]["failed"],
                       {"failing_input": pred_fail[0], "more": pred_fail[1:4], "broken": broken})
@@ -823,30 +970,30 @@ def run(rep):
             rep.violation("C12 no longer shown to hold: " + "; ".join(broken)[:600],
                           {"broken": broken, "first_disagreement": first}, found_input=False)
 
-    n_corr = 4
+    n_corr = 3
     cov.update({
         "obligations": po["obligations"] + n_corr,
-        "discharged": po["discharged"] + (0 if mm_hs else 1) + (0 if mm_pool else 1) + (0 if mm_glue else 1) + (0 if glue["problems"] else 1),
-        "checker_cmd": "make -C coq theories/Properties/C12.vo + coqc on generated cases_*.v (vm_compute of Model.Handshake.run_case, Model.Pool.run_case and Model.Pool.run_glue_case) + source tripwire of the connection glue",
+        "discharged": po["discharged"] + (0 if mm_hs else 1) + (0 if mm_pool else 1) + (0 if mm_glue else 1),
+        "checker_cmd": "make -C coq theories/Properties/C12.vo + coqc on generated cases_*.v (vm_compute of Model.Handshake.run_case, Model.Pool.run_case and Model.Pool.run_node_case)",
         "trusted_base": common.standard_trusted_base([
             "H-SIG: ed25519 / BLS signatures are symbolic terms; only the holder of a key produces sig(key, id); the Msg variant tag separates session-id signatures from every other signed message",
             "H-SID: the noise session id (handshake hash) is shared by exactly the two ends of one session and differs between sessions (snow / Noise NN trusted)",
             "H-ATOM: PoolWatch::insert / remove closures run atomically under the watch lock",
-            "inbound admission glue is EXECUTED (real Network::new + verif::Glue::{gossip,consensus}_run_inbound_stream on real sessions) and diffed with Model.Pool.run_glue_case; the outbound runners (they dial through preface::connect themselves) are covered by the source tripwire and by the shared handshake/pool functions only",
+            "admission glue of both directions is EXECUTED (real Network::new; verif::Glue::{gossip,consensus}_run_{inbound,outbound}_stream and consensus_maintain_connection on real sessions, the harness being dialled through the real preface) and diffed with Model.Pool.run_node_case; not executed: the gossip reconnect loop inside Runner::run (a `loop { run_outbound_stream; sleep }`) and the listener's accept loop",
         ]),
         "theorems": po["theorems"], "axioms": po["axioms"],
         "evaluations": evals + conc_ops + glue_events,
         "distinct_nontrivial": len(dist_hs) + len(dist_pool) + len(dist_glue),
-        "rule": "handshake: scripts of 1-5 concurrent sessions on real noise-over-TCP, each with a victim running the real inbound/outbound function of the gossip or validator network and the harness as adversary delivering one message per session in a random order (valid / replayed verbatim from another session / replayed with the id field rewritten / re-signed / reflected / signed by another key / signature for another id / garbage signature / other, truncated, extended, empty session id / other chain / unexpected peer / malformed or closed / free mix), plus honest pairs; non-trivial+distinct = distinct (victim config, delivered message as decoded from the real objects, session) that reached the decision code, plus distinct honest pairs. pool: 1-40 inserts/removes on 1-8 keys, limits {0,1,2,3,5,2^32,usize::MAX}; distinct = (allowed, limit, contents before, op). poolc: 4-16 concurrent connection lifecycles on a 2-5 worker runtime, predicates only. glue: a real node (public Network::new, in-memory engine, gossip key / static_inbound / dynamic_inbound_limit 0-3, or validator committee of 1-8 keys) whose run_inbound_stream of the gossip or validator network is fed 3-14 adversary events (connect as configured / non-configured / duplicate identity / over quota / replaying the node's own answer / signature for another connection / other chain / bad signature / other key / other id / malformed, and disconnects of live or dead connections); after every event answered?, live?, and the four pools are compared with Model.Pool.run_glue_case (handshake decision + gstep); distinct = (net, allowed, limit, pool before, event, delivered message, live)",
+        "rule": "handshake: scripts of 1-5 concurrent sessions on real noise-over-TCP, each with a victim running the real inbound/outbound function of the gossip or validator network and the harness as adversary delivering one message per session in a random order (valid / replayed verbatim from another session / replayed with the id field rewritten / re-signed / reflected / signed by another key / signature for another id / garbage signature / other, truncated, extended, empty session id / other chain / unexpected peer / malformed or closed / free mix), plus honest pairs; non-trivial+distinct = distinct (victim config, delivered message as decoded from the real objects, session) that reached the decision code, plus distinct honest pairs. pool: 1-40 inserts/removes on 1-8 keys, limits {0,1,2,3,5,2^32,usize::MAX}; distinct = (allowed, limit, contents before, op). poolc: 4-16 concurrent connection lifecycles on a 2-5 worker runtime, predicates only. glue: a real node (public Network::new, in-memory engine; gossip: key / static_inbound / dynamic_inbound_limit 0-3 / static_outbound; validator: committee of 1-8 keys) driven by 3-14 events in both directions: inbound connects through run_inbound_stream (configured / non-configured / duplicate identity / over quota / also connected outbound / replayed / forged / malformed), outbound dials through the node's own run_outbound_stream into the harness's listener with the other end (a) presenting the expected key, (b) another valid key, (c) a replayed or reflected handshake or a signature for another connection, (d) dropping mid-handshake or before the preface ends, (e) two concurrent dials of one peer, (f) the peer being connected inbound meanwhile, non-configured peers, the validator maintain_connection loop for 1-3 rounds, and disconnects; after every event: the node's own handshake as sent, live?, inbound and outbound pool compared with Model.Pool.run_node_case (handshake decision + gstep per direction); distinct = (net, config, both pools before, event, peer, delivered message, live)",
         "input_distribution": {"kinds": kinds, "handshake_results": results,
                                "handshake_cases": len(hs_cases), "pool_cases": len(pool_cases), "concurrent_pool_cases": len(poolc_cases), "glue_cases": len(glue_cases), "glue_events": glue_events,
                                "concurrent_pool_ops": conc_ops},
         "samples": [{"case": strip(hs_cases[i]), "impl": hs_outs[i], "model_obs": samp.get(i)} for i in sample_ids if i < len(hs_cases)]
                    + [{"case": strip(pool_cases[0]), "impl": pool_outs[0], "model_obs": samp_pool.get(0)}]
                    + [{"case": strip(glue_cases[i]), "impl": glue_outs[i], "model_obs": samp_glue.get(i)} for i in (0, 1)],
-        "glue_source_check": glue, "timing_retries": retried,
+        "glue_source_note (informational, not an obligation)": glue, "timing_retries": retried,
         "correspondence_mismatches": len(mm_hs) + len(mm_pool) + len(mm_glue), "predicate_failures": len(pred_fail),
-        "partial": "the theorems are about the Gallina model under H-SIG, H-SID, H-ADV, H-ATOM; unforgeability of ed25519/BLS and the binding of the noise handshake hash to one session are assumed, not proved; timeouts and frame limits are abstracted to `stream error`; the inbound admission glue of both networks is executed against the model, the two outbound runners (which dial by themselves) only through the source tripwire plus the shared handshake and pool code; the pool under real multi-thread concurrency is checked by predicates only",
+        "partial": "the theorems are about the Gallina model under H-SIG, H-SID, H-ADV, H-ATOM; unforgeability of ed25519/BLS and the binding of the noise handshake hash to one session are assumed, not proved; timeouts and frame limits are abstracted to `stream error`; the admission glue of both networks and both directions (and the validator reconnect loop) is executed against the model; not executed: the gossip reconnect loop and the accept loop inside Runner::run; the pool under real multi-thread concurrency is checked by predicates only",
     })
     rep.assumptions += [
         "H-SIG symbolic signatures with domain separation by Msg variant", "H-ADV Dolev-Yao adversary: signs with non-honest keys only, sees every emitted message",
